@@ -644,6 +644,7 @@ func (w *worker) runCase(cs J) (res CaseResult) {
 			if d := time.Until(target); d > 0 {
 				time.Sleep(d)
 			}
+			modelNow = jInt(ideal["post"].(J)["now"])
 			res.Steps = i + 1
 			continue
 		}
